@@ -35,7 +35,7 @@ class Loop:
     def __init__(self, header=None, invariant=(), modifies=(), decreases=None, index=None, props=()):
         self.header = header            # expected header text (undecided if the real loop differs)
         self.invariant = _clauses(invariant, "inv")
-        self.modifies = list(modifies)
+        self.modifies = list(modifies) if modifies is not None else None
         self.decreases = decreases
         self.index = index              # name of the ghost index variable of a `for` loop
         self.props = tuple(props)
@@ -54,7 +54,10 @@ class Contract:
     def __init__(self, target, *, params=None, returns="none", requires=(), ensures=(), raises=None,
                  modifies=(), loops=None, ghost=(), inline=(), props=(), abortable=False, ppi=(),
                  extern=False, trusted_reason=None, callables=None, locals=None, fresh_result=False,
-                 pure=False, self_type=None, ghost_params=None, escapes=(), notes="", allow_any_exception=False):
+                 pure=False, self_type=None, ghost_params=None, escapes=(), notes="", allow_any_exception=False, varargs=False, uses=(), allocates=False):
+        self.allocates = allocates or any('fresh(' in (e.expr if isinstance(e, Clause) else e) for e in (ensures or []))
+        self.varargs = varargs
+        self.uses = tuple(uses)           # labels of Logic axioms assumed when verifying / lemmas relied upon
         self.target = target                       # "rel/path.py::Qual.name"  or  "ext::dotted.name"
         self.file, self.qualname = target.split("::")
         self.params = dict(params or {})          # name -> type string (self excluded)
@@ -116,6 +119,20 @@ class ClassDecl:
         self.virtual = dict(virtual or {})   # abstract (overridable) properties modelled as immutable ghost fields
         self.ghost = dict(ghost or {})       # ghost fields
         self.exception = exception
+
+
+class Lemma:
+    """A closed SMT fact over the spec vocabulary: forall vars. requires => ensures. Discharged by the solvers;
+    `induction` names an int variable: base (== 0) and step (k -> k+1, hypothesis for k) VCs are generated."""
+
+    def __init__(self, name, vars, ensures, requires=(), props=(), induction=None, uses=()):
+        self.name = name
+        self.uses = tuple(uses)
+        self.vars = dict(vars)
+        self.requires = _clauses(requires, "hyp")
+        self.ensures = _clauses(ensures, "concl")
+        self.props = tuple(props)
+        self.induction = induction
 
 
 class Logic:
